@@ -144,14 +144,17 @@ func (h *NFSProcedureHandler) handleSetattr(body io.Reader, reply *RPCReply, aut
 		return nfsErrorWithWcc(reply, NFSERR_IO), nil
 	}
 	attrs := &NFSAttrs{
-		Mode: node.attrs.Mode,
-		Uid:  node.attrs.Uid,
-		Gid:  node.attrs.Gid,
+		Mode:   node.attrs.Mode,
+		Size:   node.attrs.Size,
+		FileId: node.attrs.FileId,
+		Uid:    node.attrs.Uid,
+		Gid:    node.attrs.Gid,
 	}
 	node.mu.RUnlock()
 
 	if sattr.SetMode {
-		attrs.Mode = os.FileMode(sattr.Mode)
+		// Only permission bits change; the object's type is not settable
+		attrs.Mode = attrs.Mode&os.ModeType | os.FileMode(sattr.Mode&07777)
 	}
 	if sattr.SetUID {
 		if authCtx.EffectiveUID == 0 {
